@@ -30,6 +30,7 @@ import (
 	"verifharness/director"
 	"verifharness/payload"
 	"verifharness/prog"
+	"verifharness/refwire"
 	"verifharness/rig"
 	"verifharness/runner"
 	"verifharness/simnet"
@@ -531,6 +532,97 @@ func hostilePeer(id string, seed uint64, role string) runner.Result {
 	return res
 }
 
+// earlyData: the peer has already sent packets for the stream id the client is about to use when
+// the client creates the stream; the connection is closed while the new stream has been published to
+// the reader but not yet handed to the stream manager.
+func earlyData(id string, seed uint64) runner.Result {
+	base := census.IDs(census.Snapshot())
+	r := &payload.SplitMix{S: seed}
+	opts := drpcmanager.Options{SoftCancel: r.Intn(2) == 0}
+	rg := rig.New(rig.Config{Net: simnet.Opts{Cap: -1}, Client: opts, NoSrv: true}, nil)
+	raw, under := rg.Pair.B, rg.Pair.A
+	rig.Go("drain", func() (interface{}, error) {
+		buf := make([]byte, 4096)
+		for {
+			if _, err := raw.Read(buf); err != nil {
+				return nil, nil
+			}
+		}
+	})
+	var in []byte
+	nmsg := 1 + r.Intn(3)
+	for m := 0; m < nmsg; m++ {
+		in = refwire.Encode(in, refwire.Frame{Stream: 1, Message: uint64(m + 1), Kind: 2, Done: true, Data: payload.Make(1, 1, 0, uint32(m), r.Intn(100))})
+	}
+	park := rg.Dir.ParkAt("manager.newstream.published", under, 1)
+	how := payload.Pick(r, []string{"conn.Close", "peer closes", "local transport closed"})
+	first := r.Intn(2) == 0 // the data arrives before / after the stream was published
+	if first {
+		raw.Write(in)
+		census.Quiesce(rig.Watchdog)
+	}
+	call := rig.Go("NewStream", func() (interface{}, error) {
+		st, err := rg.Conn.NewStream(context.Background(), "/svc/Method", payload.Enc{})
+		if err == nil {
+			var m []byte
+			for st.MsgRecv(&m, payload.Enc{}) == nil {
+			}
+			st.Close()
+		}
+		return nil, err
+	})
+	st0, _ := census.QuiesceOr(park.Reached(), rig.Watchdog)
+	if !first {
+		raw.Write(in)
+	}
+	census.Quiesce(rig.Watchdog)
+	var closer *rig.Op
+	switch how {
+	case "conn.Close":
+		closer = rig.Go("conn.Close", func() (interface{}, error) { return nil, rg.Conn.Close() })
+	case "peer closes":
+		raw.Close()
+	case "local transport closed":
+		under.Close()
+	}
+	census.Quiesce(rig.Watchdog)
+	park.Release()
+	st, _ := census.QuiesceOr(nil, rig.Watchdog)
+	desc := fmt.Sprintf("early data: %d message(s) for stream 1 sent by the peer (before the stream existed=%v), NewStream parked after publishing the stream (reached=%v), then %s (soft=%v)", nmsg, first, st0 == "ready", how, opts.SoftCancel)
+	if st == "watchdog" {
+		rg.Teardown()
+		return runner.Inconcl(id, "watchdog: "+desc)
+	}
+	var fails []string
+	if !call.Returned() {
+		fails = append(fails, "NewStream (and the receives after it) has not returned after the connection was closed")
+	}
+	if closer != nil && !closer.Returned() {
+		fails = append(fails, "Conn.Close has not returned although the transport let go of all I/O")
+	}
+	if closer == nil {
+		closer = rig.Go("conn.Close", func() (interface{}, error) { return nil, rg.Conn.Close() })
+		if !closer.Wait() {
+			fails = append(fails, "Conn.Close (after the transport had ended) has not returned")
+		}
+	}
+	raw.Close()
+	_, snap := census.Quiesce(rig.Watchdog)
+	if n := under.CloseCount(); n != 1 && how != "local transport closed" {
+		fails = append(fails, fmt.Sprintf("the client transport was closed %d times", n))
+	}
+	if left := census.NewSince(census.InDRPC(snap), base); len(left) > 0 {
+		fails = append(fails, "library goroutines left behind:\n"+census.Dump(left))
+	}
+	rg.Teardown()
+	if len(fails) > 0 {
+		return runner.Violation(id, "early-data:"+keyOf(fails[0]), desc+"\n"+strings.Join(fails, "\n"))
+	}
+	res := runner.Hold(id, desc, st0 == "ready")
+	res.Events = 1
+	return res
+}
+
 func clipB(b []byte) []byte {
 	if len(b) > 64 {
 		return b[:64]
@@ -550,6 +642,15 @@ func gen(tier string, seed uint64) []runner.Scenario {
 		role := []string{"server", "client"}[i%2]
 		id := fmt.Sprintf("hostile-peer/%s/%d", role, i)
 		out = append(out, runner.Scenario{ID: id, Run: func() runner.Result { return hostilePeer(id, payload.Hash(seed, 0xC122, uint64(i)), role) }})
+	}
+	ne := 60
+	if tier == "thorough" {
+		ne = 2000
+	}
+	for i := 0; i < ne; i++ {
+		i := i
+		id := fmt.Sprintf("early-data/%d", i)
+		out = append(out, runner.Scenario{ID: id, Run: func() runner.Result { return earlyData(id, payload.Hash(seed, 0xC123, uint64(i))) }})
 	}
 	for wi, w := range wl.Workloads {
 		for _, soft := range []bool{false, true} {
